@@ -28,6 +28,10 @@ VEC_CLEAR = "alloc::vec::Vec::<T, A>::clear"
 VEC_POP = "alloc::vec::Vec::<T, A>::pop"
 VEC_REVERSE = "core::slice::<impl [T]>::reverse"
 SPLIT_OFF = "alloc::vec::Vec::<T, A>::split_off"
+TRY_INTO = "core::convert::TryInto::try_into"
+INTO_ITER = "core::iter::traits::collect::IntoIterator::into_iter"
+ITER_NEXT = "core::iter::traits::iterator::Iterator::next"
+RESULT_KEEP_VARIANT = ("core::result::Result::<T, E>::map_err", "core::result::Result::<T, E>::map")
 INDEX = "core::ops::index::Index::index"
 SLICE_LEN = "core::slice::<impl [T]>::len"
 SLICE_IS_EMPTY = "core::slice::<impl [T]>::is_empty"
@@ -218,6 +222,7 @@ class VecLen:
         self.obligations = []
         self.site_elem = {}      # bb -> ('elem', key, orig index) for remove/index sites
         self.site_state = {}     # bb -> (key, (lo,hi,orig)) state of the vec just before the site
+        self.array_orig = {}     # bb of a Vec -> [T; N] conversion -> original indices of the N elements (or None)
         self.drains = tail_drains(fn)
         self._pv = None
         self._run()
@@ -387,6 +392,16 @@ class VecLen:
                 st.sym[l] = ("nmemb" if a[0] == "memb" else "memb", a[1], a[2])
         elif k == "discr" and not rv["place"]["p"] and rv.get("adt"):
             st.sym[l] = ("discr", rv["place"]["l"], rv["adt"])
+        elif k == "discr" and len(rv["place"]["p"]) == 1 and rv["place"]["p"][0][0] == "field" and rv.get("adt"):
+            st.sym[l] = ("discr_field", rv["place"]["l"], rv["place"]["p"][0][1], rv["adt"])
+        elif k == "aggr" and rv["kind"] == "tuple":
+            # `match (it.next(), it.next(), ..)`: remember which components are known to be Some / None
+            vs = []
+            for o in rv["ops"]:
+                s0 = st.sym.get(o["place"]["l"]) if o["k"] in ("copy", "move") and not o["place"]["p"] else None
+                vs.append(s0[1] if s0 and s0[0] == "variant" else None)
+            if any(v is not None for v in vs):
+                st.sym[l] = ("tuplevar", tuple(vs))
         elif k == "aggr" and rv["kind"] == "adt" and rv.get("variant") and rv["adt"] in WRAPPERS:
             # Ok(v) / Some(v) / Err(e): the local is that variant; length facts of a moved-in vec live on under the payload
             st.sym[l] = ("variant", rv["variant"])
@@ -423,6 +438,60 @@ class VecLen:
             return
         if dl is not None and (name == FROM_RESIDUAL or self._always_err(name)):
             st.sym[dl] = ("variant", "Err")
+            return
+        if name == TRY_INTO and dl is not None and args and args[0]["k"] in ("copy", "move") and not args[0]["place"]["p"]:
+            # Vec<T> -> [T; N]: Ok exactly when len == N, elements in order
+            m = re.search(r";\s*(\d+)\]", ((t.get("callee") or {}).get("resolved") or {}).get("full") or (t.get("callee") or {}).get("full") or "")
+            src = "_%d" % args[0]["place"]["l"]
+            if m and self._is_vec_local(args[0]["place"]["l"]):
+                n = int(m.group(1))
+                iv = self._iv(st, src)
+                self.site_state[bb] = (src, iv)
+                orig = iv[2] if (iv[2] is not None and len(iv[2]) == n) else (tuple(range(n)) if src not in st.dirty and iv[2] is None else None)
+                self.array_orig[bb] = orig
+                if iv[0] == iv[1] == n:
+                    st.sym[dl] = ("variant", "Ok")
+                elif iv[1] < n or iv[0] > n:
+                    st.sym[dl] = ("variant", "Err")
+                if iv[0] <= n <= iv[1]:
+                    st.vec["(_%d as Ok).0" % dl] = (n, n, orig)
+                return
+        if name in RESULT_KEEP_VARIANT and dl is not None and args and args[0]["k"] in ("copy", "move") and not args[0]["place"]["p"]:
+            x = args[0]["place"]["l"]
+            v = st.sym.get(x)
+            if v and v[0] == "variant":
+                st.sym[dl] = v
+            if name.endswith("map_err"):
+                pre = "(_%d as Ok)" % x
+                for key in list(st.vec):
+                    if key.startswith(pre):
+                        st.vec["(_%d as Ok)" % dl + key[len(pre):]] = st.vec[key]
+            return
+        if name == INTO_ITER and dl is not None and args and args[0]["k"] in ("copy", "move") and not args[0]["place"]["p"] \
+                and self._is_vec_local(args[0]["place"]["l"]):
+            # the iterator owns the remaining elements: same length facts, consumed from the front
+            src = "_%d" % args[0]["place"]["l"]
+            iv = self._iv(st, src)
+            orig = iv[2]
+            st.vec["_%d" % dl] = (iv[0], iv[1], orig)
+            st.sym[dl] = ("iterpos", 0, src in st.dirty)
+            return
+        if name == ITER_NEXT and key0 and dl is not None and self.fn.local_ty(int(key0[1:])).startswith("alloc::vec::into_iter::IntoIter<") \
+                if (key0 and key0[1:].isdigit()) else False:
+            itl = int(key0[1:])
+            iv = self._iv(st, key0)
+            pos = st.sym.get(itl)
+            k = pos[1] if pos and pos[0] == "iterpos" else None
+            oi = iv[2][0] if (iv[2] is not None and len(iv[2]) >= 1) else (k if (k is not None and pos and not pos[2] and iv[2] is None) else None)
+            self.site_elem[bb] = ("elem", key0, oi)
+            self.site_state[bb] = (key0, iv)
+            if iv[0] >= 1:
+                st.sym[dl] = ("variant", "Some")
+            elif iv[1] == 0:
+                st.sym[dl] = ("variant", "None")
+            st.vec[key0] = (max(iv[0] - 1, 0), max(iv[1] - 1, 0) if iv[1] < INF else INF, iv[2][1:] if iv[2] else iv[2])
+            if k is not None:
+                st.sym[itl] = ("iterpos", k + 1, pos[2])
             return
         if name in (VEC_LEN, SLICE_LEN) and key0 and dl is not None:
             st.sym[dl] = ("len", key0, 0)
@@ -594,6 +663,12 @@ class VecLen:
                         feasible = False
                     else:
                         s2.vec[sy[1]] = r
+                elif sy and sy[0] == "discr_field":
+                    tv = st.sym.get(sy[1])
+                    names = self.fn.prog.enums.get(sy[3]) or {}
+                    if tv and tv[0] == "tuplevar" and sy[2] < len(tv[1]) and tv[1][sy[2]] is not None and v in names \
+                            and names[v] != tv[1][sy[2]]:
+                        feasible = False
                 elif sy and sy[0] == "discr":
                     known = st.sym.get(sy[1])
                     names = self.fn.prog.enums.get(sy[2]) or {}
